@@ -264,6 +264,11 @@ def tp_queries(rng, T, P):
         i = int(rng.integers(0, len(P) - 1))
         q.append(('interior', float(T[j] + rng.uniform(0.05, 0.95) * (T[j + 1] - T[j])),
                   float(10 ** (lp[i] + rng.uniform(0.05, 0.95) * (lp[i + 1] - lp[i])))))
+    # just above an interior node (a fraction of a kelvin): the bracket must still be the cell ABOVE the node
+    for j in range(1, len(T) - 1):
+        i = int(rng.integers(0, len(P) - 1))
+        q.append(('interior', float(T[j]) + float(rng.uniform(0.05, 0.9)) * min(1.0, 0.5 * float(T[j + 1] - T[j])),
+                  float(10 ** (lp[i] + rng.uniform(0.05, 0.95) * (lp[i + 1] - lp[i])))))
     tin = lambda: float(rng.uniform(T[0] * 1.01, T[-1] * 0.99)) if T[-1] * 0.99 > T[0] * 1.01 else float(T.mean())
     pin = lambda: float(10 ** rng.uniform(lp[0] + 0.01, lp[-1] - 0.01))
     tlo, thi = float(T[0] * rng.uniform(0.3, 0.95)), float(T[-1] * rng.uniform(1.05, 2.0))
@@ -572,6 +577,8 @@ def wl_cia(ctx, rng):
         for _ in range(4):
             j = int(rng.integers(0, len(T) - 1))
             qs.append(('interior', float(T[j] + rng.uniform(0.05, 0.95) * (T[j + 1] - T[j]))))
+        for j in range(1, len(T) - 1):       # a fraction of a kelvin above an interior node
+            qs.append(('interior', float(T[j]) + float(rng.uniform(0.05, 0.9)) * min(1.0, 0.5 * float(T[j + 1] - T[j]))))
         qs += [('outside', float(T[0] * rng.uniform(0.2, 0.95))), ('outside', float(T[-1] * rng.uniform(1.05, 3.0)))]
         offgrid = np.sort(rng.uniform(wn[0] * 0.8, wn[-1] * 1.2, int(rng.integers(2, 12))))
         results = {}
